@@ -1008,6 +1008,139 @@ func bigCases() []run.Case {
 	return cases
 }
 
+// lateAdvanceCases: the connection moves the cursor (AdvanceTo(n)) while fragments of message n itself are
+// already buffered (they arrived while the buffer still expected an earlier message): message n of every
+// length <= maxL in every composition into fragments, every arrival order, the cursor moved after k = 1..
+// all-but-one... all arrivals. The message must surface exactly when its last byte has arrived and the cursor
+// is at n, byte-identical, once.
+func lateAdvanceCases(maxL int) []run.Case {
+	var comps func(l int) [][]int
+	comps = func(l int) [][]int {
+		if l == 0 {
+			return [][]int{nil}
+		}
+		var out [][]int
+		for first := 1; first <= l; first++ {
+			for _, rest := range comps(l - first) {
+				out = append(out, append([]int{first}, rest...))
+			}
+		}
+		return out
+	}
+	var cases []run.Case
+	for L := 1; L <= maxL; L++ {
+		L := L
+		cases = append(cases, run.Case{ID: fmt.Sprintf("advlate/L%d", L), Run: func(t *testing.T) run.Outcome {
+			o := run.Outcome{Class: "late-advance", Counters: map[string]int{}}
+			body := make([]byte, L)
+			for i := range body {
+				body[i] = byte(0x40 + i)
+			}
+			const n = 3
+			m := Msg{Seq: n, Typ: 11, Body: body}
+			stale := Msg{Seq: n - 1, Typ: 1, Body: []byte{0xEE, 0xEF}}
+			for _, c := range comps(L) {
+				type fr struct{ off, l int }
+				var frs []fr
+				off := 0
+				for _, l := range c {
+					frs = append(frs, fr{off, l})
+					off += l
+				}
+				ords, _ := permutations(len(frs), 720)
+				for _, ord := range ords {
+					for k := 1; k <= len(frs); k++ {
+						o.Evals++
+						fb := fragmentbuffer.New()
+						seq := uint64(0)
+						push := func(raw []byte) error { seq++; _, _, err := fb.Push(EncodeRecord(0, seq, raw)); return err }
+						fail := func(key, f string, a ...any) run.Outcome {
+							o.Key, o.Violation = key, fmt.Sprintf("advlate L=%d fragments=%v order=%v cursor moved to %d after %d arrival(s): ", L, c, ord, n, k)+fmt.Sprintf(f, a...)
+							return o
+						}
+						if err := push(EncodeFragment(stale, 0, 1)); err != nil {
+							return fail("push-error", "prelude: %v", err)
+						}
+						got := 0
+						for i, idx := range ord {
+							if err := push(EncodeFragment(m, frs[idx].off, frs[idx].l)); err != nil {
+								return fail("push-error", "fragment [%d,%d): %v", frs[idx].off, frs[idx].off+frs[idx].l, err)
+							}
+							if i+1 == k {
+								fb.AdvanceTo(n)
+							}
+							complete := i+1 == len(ord)
+							for out, _ := fb.Pop(); out != nil; out, _ = fb.Pop() {
+								got++
+								switch {
+								case i+1 < k:
+									return fail("surfaced-before-cursor", "a message surfaced while the cursor was still before it")
+								case !complete:
+									return fail("surfaced-before-complete", "the message surfaced after %d of %d fragments", i+1, len(ord))
+								case !bytes.Equal(out, EncodeWhole(m)):
+									return fail("reassembled-differs", "the surfaced message differs from the one sent")
+								}
+							}
+						}
+						if got != 1 {
+							return fail("advance-to-dropped-buffered-fragments", "%d message(s) surfaced, want 1: every byte of message %d arrived exactly once", got, n)
+						}
+					}
+				}
+			}
+			o.NonTrivial = o.Evals > 0
+			return o
+		}})
+	}
+	return cases
+}
+
+// permutations returns every permutation of 0..n-1 when n! <= cap, else identity, reverse and all single moves.
+func permutations(n, cap int) ([][]int, bool) {
+	id := make([]int, n)
+	for i := range id {
+		id[i] = i
+	}
+	f := 1
+	for i := 2; i <= n; i++ {
+		f *= i
+		if f > cap {
+			break
+		}
+	}
+	if f <= cap {
+		var out [][]int
+		var rec func(cur []int, used []bool)
+		rec = func(cur []int, used []bool) {
+			if len(cur) == n {
+				out = append(out, append([]int(nil), cur...))
+				return
+			}
+			for i := 0; i < n; i++ {
+				if !used[i] {
+					used[i] = true
+					rec(append(cur, i), used)
+					used[i] = false
+				}
+			}
+		}
+		rec(nil, make([]bool, n))
+		return out, true
+	}
+	out := [][]int{id}
+	rev := make([]int, n)
+	for i := range rev {
+		rev[i] = n - 1 - i
+	}
+	out = append(out, rev)
+	for i := 0; i+1 < n; i++ {
+		p := append([]int(nil), id...)
+		p[i], p[i+1] = p[i+1], p[i]
+		out = append(out, p)
+	}
+	return out, false
+}
+
 func txCases(b bounds) []run.Case {
 	var cases []run.Case
 	for L := 0; L <= b.TxMaxLen; L++ {
@@ -1056,6 +1189,7 @@ func allCases(b bounds) []run.Case {
 	cases = append(cases, strayCases(b.LH, b.CapH)...)
 	cases = append(cases, longCases()...)
 	cases = append(cases, bigCases()...)
+	cases = append(cases, lateAdvanceCases(b.LA+2)...)
 	cases = append(cases, oneMsgCases("rx1", 0, []string{modeEach}, b.L1, b.Cap1)...)
 	cases = append(cases, oneMsgCases("rx1", 0, []string{modePair, modeAll}, b.L1, b.Cap1p)...)
 	cases = append(cases, twoMsgCases("rx2", 0, []string{modeEach}, b.L2, b.Cap2)...)
